@@ -30,6 +30,9 @@ def run(ctx):
                       "nothing, and the loop runs the inner command for ever")
     ctx.rule("R11-10", "the whole output is captured: the parent reads each capture pipe to end-of-file (read_to_string / "
                        "read_to_end directly on the File made from the pipe's read end) - no take(), no bounded or single read")
+    ctx.rule("R11-11", "the output is inserted as literal text: in do_expansion no pass that interprets characters of an untagged "
+                       "word (glob, brace, brace range, tilde, `$NAME`) runs AFTER the substitution passes, whose results "
+                       "stay in untagged words")
     ctx.rule("R11-7", "the output is spliced into the word that held the substitution: the position recorded for a word is "
                       "not used after the token vector's length changed (E-EDITLIST)")
     for crate in ctx.crates:
@@ -37,6 +40,7 @@ def run(ctx):
         n_ = editlist.rule(ctx, crate, "R11-7", list(SITES))
         ctx.floor("R11-7", crate, "substitution passes with a token vector", n_, 2)
         once_rule(ctx, crate)
+        pass_order_rule(ctx, crate, "R11-11")
         read_to_eof_rule(ctx, crate)
         scanners = taint.dollar_scanners(crate)
         nsites = 0
@@ -400,3 +404,28 @@ def read_to_eof_rule(ctx, crate):
                detail=None if ok else ("bounded read (%s): output beyond the bound is silently dropped (and a cut inside a "
                                        "multi-byte character makes read_to_string fail, leaving an empty replacement)" %
                                        ", ".join(x[1] for x in limited) if limited else "no read_to_string / read_to_end on it"))
+
+
+INTERPRETING = {"shell::expand_glob": "file-name patterns (`*`, `?`, `[`)", "shell::expand_brace": "brace lists (`{a,b}`)",
+                "shell::expand_brace_range": "brace ranges (`{1..3}`)", "shell::expand_home": "a leading `~`",
+                "shell::expand_env": "`$NAME` references", "shell::expand_alias": "alias names"}
+
+
+def pass_order_rule(ctx, crate, rule):
+    from .c13 import passes_in_order
+    de, passes = passes_in_order(crate)
+    if not ctx.require(de is not None and len(passes) >= 7, rule, "%s|anchor" % rule, "do_expansion / its passes not found"):
+        return
+    subst = [i for i, p in enumerate(passes) if "command_substitution" in p]
+    if not ctx.require(bool(subst), rule, "%s|subst" % rule, "no substitution pass in do_expansion"):
+        return
+    first = min(subst)
+    for i, p in enumerate(passes):
+        if p in INTERPRETING:
+            ok = i < first
+            ctx.ob(rule, de.path, "%s runs before the command substitutions" % p.split("::")[-1], ok,
+                   key="%s|%s|after-substitution|%s" % (rule, de.path, p.split("::")[-1]), crate=crate.kind,
+                   detail=None if ok else "command output left in an untagged word is searched for %s: `echo $(echo '%s')` does "
+                   "not print what the inner command printed" % (INTERPRETING[p], {"shell::expand_brace_range": "{1..3}",
+                   "shell::expand_glob": "*.txt", "shell::expand_brace": "{a,b}", "shell::expand_home": "~/x",
+                   "shell::expand_env": "$HOME", "shell::expand_alias": "ll"}.get(p, "...")))
